@@ -133,7 +133,9 @@ def coq_hygiene(subdirs=None):
 
 def coqc_file(path, timeout=1200, extra_args=()):
     cmd = ["coqc", "-noglob", "-Q", os.path.join(COQ, "theories"), "Syc"] + list(extra_args) + [path]
-    return sh(cmd, timeout=timeout, cwd=os.path.dirname(path))
+    # large literal case lists need a deep stack in coqc's parser / vm
+    sh_cmd = "ulimit -s unlimited 2>/dev/null || ulimit -s 1000000 2>/dev/null; exec " + " ".join("'%s'" % c for c in cmd)
+    return sh(sh_cmd, timeout=timeout, cwd=os.path.dirname(path))
 
 
 def coq_assumptions(pid, module, theorems, allow=()):
